@@ -1061,7 +1061,7 @@ class Exec:
             return
         self.cut_loop(k, spec, s, lambda: self.truth(self.expr(s.test)), None)
 
-    def cut_loop(self, k, spec, s, cond_fn, bind_fn):
+    def cut_loop(self, k, spec, s, cond_fn, bind_fn, exit_bind_fn=None):
         """Invariant-based loop cut. cond_fn() decides loop continuation in the havoc'd state;
         bind_fn() binds the loop target for a generic iteration."""
         ctx = self.ctx
@@ -1075,6 +1075,8 @@ class Exec:
             if cond_fn():
                 raise Infeasible()
             ctx.cover(f"{tag}.exit-reachable")
+            if exit_bind_fn is not None:
+                exit_bind_fn()
             if spec.on_exit:
                 spec.on_exit(self)
             self.block(s.orelse)
@@ -1116,7 +1118,12 @@ class Exec:
             def cond():
                 holder["gen"] = it._pv_generic(self)  # (cond_fn, bind_fn) built after the havoc
                 return holder["gen"][0]()
-            self.cut_loop(k, spec, s, cond, lambda: self.assign(s.target, holder["gen"][1]()))
+            def exit_bind():
+                # after normal exhaustion of range(lo, hi) the target keeps the last value (unbound if no iteration ran)
+                idx, lo = self.ctx.ghost.get("loop_index"), getattr(it, "lo", None)
+                if isinstance(it, SymRange) and is_z3(idx) and self.ctx.branch(lift(idx) > lift(lo)):
+                    self.assign(s.target, idx - 1)
+            self.cut_loop(k, spec, s, cond, lambda: self.assign(s.target, holder["gen"][1]()), exit_bind)
             # leaving the loop (exit path or break): the enclosing loop's ghost index is current again
             self.ctx.ghost["loop_index"] = outer_index
             return
